@@ -1,6 +1,38 @@
-(** Entry points for C02 (stub: replaced by the property's own entry file). *)
-From Coq Require Import ZArith List.
-From GV Require Import Base.Val.
+(** Entry points for C02 / C15 (Jaccard distance kernel). *)
+From Coq Require Import ZArith List Bool.
+From GV Require Import Base.Val Base.CSem Base.F32 Gen.MetricPyx Spec.Jaccard Spec.JaccardF
+  Model.MetricPy Entry.Codec.
+Import ListNotations.
 Open Scope Z_scope.
 
-Definition dispatch (op : Z) (a : val) : val := vbad.
+Definition dispatch (op : Z) (a : val) : val :=
+  match op with
+  (* 1: generated kernel: (A B) -> bits of the binary32 distance *)
+  | 1 => match a with
+         | VL [A; B] => let A := to_Zs A in let B := to_Zs B in
+                        vres vf32 (jaccarddist (length A + length B) A B)
+         | _ => vbad end
+  (* 2: generated jaccard: (A B) -> bits of the binary64 index *)
+  | 2 => match a with
+         | VL [A; B] => let A := to_Zs A in let B := to_Zs B in
+                        vres vf64 (jaccard (length A + length B) A B)
+         | _ => vbad end
+  (* 3: spec counts (A B) -> (symdiff union inter) *)
+  | 3 => match a with
+         | VL [A; B] => let A := to_Zs A in let B := to_Zs B in
+                        VL [VI (symdiff_count A B); VI (union_count A B); VI (inter_count A B)]
+         | _ => vbad end
+  (* 4: ratio_f32 (s u) -> bits *)
+  | 4 => match a with VL [VI s; VI u] => vf32 (ratio_f32 s u) | _ => vbad end
+  (* 5: python wrapper incl. dtype handling: (k1 s1 A k2 s2 B) *)
+  | 5 => match a with
+         | VL [VI k1; VI s1; A; VI k2; VI s2; B] => vres vf32 (py_jaccarddist k1 s1 (to_Zs A) k2 s2 (to_Zs B))
+         | _ => vbad end
+  | 6 => match a with
+         | VL [VI k1; VI s1; A; VI k2; VI s2; B] => vres vf64 (py_jaccard k1 s1 (to_Zs A) k2 s2 (to_Zs B))
+         | _ => vbad end
+  (* 7: index from distance bits: 1.0 - (double) d *)
+  | 7 => match a with VI b => vf64 (f64_minus (f64_of_Z 1) (f64_of_f32 (f32_of_bits b))) | _ => vbad end
+  | 8 => vbool (sortedb (to_Zs a))
+  | _ => vbad
+  end.
